@@ -201,6 +201,12 @@ func (w *World) contentFor(abs string, pkg string) ([]byte, bool) {
 		i := strings.IndexByte(rest, ':')
 		v, k := rest[:i], rest[i+1:]
 		return w.b.Ref[v][:w.b.truncOffset(v, k)], true
+	case strings.HasPrefix(abs, "ext:"):
+		ref, ok := w.b.Ref[abs[4:]]
+		if !ok {
+			core.Machinery("no reference for %s", abs)
+		}
+		return append(append([]byte(nil), ref...), []byte("\n// left over from an older, longer output\nfunc LeftOver() int { return 1 }\n")...), true
 	case abs == "broken" || abs == "illtyped":
 		return []byte(garbageContent(abs, pkg)), true
 	}
